@@ -212,6 +212,17 @@ fn gen_goal(r: &mut Rng, w: &Weights, arities: &[usize], level: usize, depth: us
         4 | 5 => {
             let n = 2 + r.below(2);
             let mut gs = vec![]; for _ in 0..n { gs.push(gen_goal(r, w, arities, level, depth + 1)); }
+            // cut followed by failure inside a group: the situation in which a cut must stop
+            // later alternatives / clauses although nothing succeeded after it
+            if w.cut > 0 && r.chance(w.cut, w.cut + 6) {
+                let mut grp = vec![];
+                if r.chance(1, 2) { grp.push(gen_goal(r, w, arities, level, depth + 2)); }
+                grp.push(bip0("!"));
+                if r.chance(1, 2) { grp.push(gen_goal(r, w, arities, level, depth + 2)); }
+                if r.chance(2, 3) { grp.push(bip0("fail")); }
+                let k = r.below(gs.len());
+                gs[k] = if grp.len() == 1 { grp.pop().unwrap() } else { Goal::OperatorGoal(Operator::And(grp)) };
+            }
             if pick == 4 { Goal::OperatorGoal(Operator::And(gs)) } else { Goal::OperatorGoal(Operator::Or(gs)) }
         },
         6 => bip0("!"),
@@ -267,4 +278,56 @@ pub fn gen_program(r: &mut Rng, w: &Weights) -> Case {
 pub fn run_random(out: &mut Out, cfg: &Cfg, w: &Weights, seed: u64, n: usize) {
     let mut r = Rng::new(seed);
     for _ in 0..n { let c = gen_program(&mut r, w); emit(out, cfg, &c); }
+}
+
+/// bounded-exhaustive small programs: `t($X) :- BODY.  t(other).  g(1). g(2). h(2). h(3).`
+/// BODY ranges over all flat conjunctions of 1-3 goals, all `(a ; b), c`, `a, (b ; c)`, `(a, b) ; c`,
+/// `a ; (b, c)` shapes over a 10-goal alphabet that includes `!`, `fail`, not(...) and print.
+pub fn alphabet() -> Vec<Goal> {
+    let x = || lv("$X"); let y = || lv("$Y");
+    vec![
+        Goal::ComplexGoal(scomplex!(atom!("g"), x())),
+        Goal::ComplexGoal(scomplex!(atom!("h"), x())),
+        bip0("!"),
+        bip0("fail"),
+        bip("unify", vec![x(), SInteger(2)]),
+        bip("print", vec![atom!("%s."), x()]),
+        Goal::OperatorGoal(Operator::Not(vec![Goal::ComplexGoal(scomplex!(atom!("h"), x()))])),
+        Goal::ComplexGoal(scomplex!(atom!("g"), y())),
+        bip("less_than", vec![x(), SInteger(2)]),
+        Goal::ComplexGoal(scomplex!(atom!("c"), x())),
+    ]
+}
+
+pub fn run_exhaustive(out: &mut Out, cfg: &Cfg, shard: usize, nshards: usize) {
+    let al = alphabet();
+    let and = |v: Vec<Goal>| Goal::OperatorGoal(Operator::And(v));
+    let or = |v: Vec<Goal>| Goal::OperatorGoal(Operator::Or(v));
+    let mut bodies: Vec<Goal> = vec![];
+    for a in &al { bodies.push(a.clone()); }
+    for a in &al { for b in &al { bodies.push(and(vec![a.clone(), b.clone()])); bodies.push(or(vec![a.clone(), b.clone()])); } }
+    for a in &al { for b in &al { for c in &al {
+        bodies.push(and(vec![a.clone(), b.clone(), c.clone()]));
+        bodies.push(and(vec![or(vec![a.clone(), b.clone()]), c.clone()]));
+        bodies.push(and(vec![a.clone(), or(vec![b.clone(), c.clone()])]));
+        bodies.push(or(vec![and(vec![a.clone(), b.clone()]), c.clone()]));
+        bodies.push(or(vec![a.clone(), and(vec![b.clone(), c.clone()])]));
+        bodies.push(and(vec![and(vec![a.clone(), b.clone()]), c.clone()]));
+    } } }
+    let fact = |f: &str, v: Unifiable| Rule{head: scomplex!(atom!(f), v), body: Goal::Nil};
+    // c/1 has a cut of its own: `c($X) :- g($X), !.`  (cut in a callee must not affect the caller)
+    let crule = Rule{head: scomplex!(atom!("c"), lv("$X")), body: and(vec![Goal::ComplexGoal(scomplex!(atom!("g"), lv("$X"))), bip0("!")])};
+    let mut idx = 0usize;
+    for b in bodies {
+        idx += 1;
+        if idx % nshards != shard { continue; }
+        let rules = vec![
+            Rule{head: scomplex!(atom!("t"), lv("$X")), body: b},
+            fact("t", atom!("other")),
+            fact("g", SInteger(1)), fact("g", SInteger(2)), fact("h", SInteger(2)), fact("h", SInteger(3)),
+            crule.clone(), fact("c", SInteger(3)),
+        ];
+        let c = Case{rules, query: vec![atom!("t"), lv("$X")], max_calls: 40, extra: 2};
+        emit(out, cfg, &c);
+    }
 }
